@@ -169,7 +169,7 @@ PROPS = {
         ],
         "native": [
             {"name": "real_backends_scan_and_point_reads", "bin": "replay_c11", "crate": "replay_db", "release": False, "tiers": ("quick", "thorough"), "thorough_seeds": 6, "timeout": 5400,
-             "bound": "the REAL RocksDB and Fjall backends (temporary directories): seeded random batches over prefix-related / empty / 0xFF-heavy / >32-bit keys, wide columns with both discriminant encodings and key-of-set columns, point reads and member scans compared with a reference map, direct and serialization-buffer write paths, first touch after a reopen, several operations on one slot in one buffer and in one direct batch (also on never-committed members / keys, and across two uncommitted batches), small signed keys / members / values on both sides of zero, empty value encodings, batches that hold ONLY operations with empty key and value encodings, string values of 0..70001 bytes and string keys / members of 0..5000 bytes (Fjall limits backend keys to 65535 bytes), 128-bit boundary keys, before and after reopen; 1 seed in the quick tier, 6 in the thorough tier (builds RocksDB: about 3 minutes cold, 1 s warm)"},
+             "bound": "the REAL RocksDB and Fjall backends (temporary directories): seeded random batches over prefix-related / empty / 0xFF-heavy / >32-bit keys, wide columns with both discriminant encodings and key-of-set columns, point reads and member scans compared with a reference map, direct and serialization-buffer write paths, first touch after a reopen, several operations on one slot in one buffer and in one direct batch (also on never-committed members / keys, and across two uncommitted batches), small signed keys / members / values on both sides of zero, twin columns with byte-identical key layouts written back to back, empty value encodings, batches that hold ONLY operations with empty key and value encodings, string values of 0..70001 bytes and string keys / members of 0..5000 bytes (Fjall limits backend keys to 65535 bytes), 128-bit boundary keys, before and after reopen; 1 seed in the quick tier, 6 in the thorough tier (builds RocksDB: about 3 minutes cold, 1 s warm)"},
         ],
         "witness": witness.c11,
         "assumptions": [
